@@ -116,6 +116,19 @@ pub enum Expr {
     /// value-controlled but monotone branch: `let c = n(); if c == 0 { (m() & g) | g } else { c | g }`
     /// (equals `n() | g`; `m` is only consulted while `n` is still at bottom)
     PeekZ(NodeId, NodeId, Box<Expr>),
+    /// the mirror image: `let c = n(); if c != 0 { c | m() | g } else { g }` (monotone; `m` is only
+    /// consulted once `n` has left bottom, so a dependency appears in a later iteration)
+    PeekNZ(NodeId, NodeId, Box<Expr>),
+}
+
+/// Generate `PeekNZ` (callee consulted only once another callee has left bottom). Off by default:
+/// with write histories it runs into a family of genuine salsa defects (DESIGN.md 14.3, F18-F20)
+/// whose classification is incomplete; the concurrent cyclic generator switches it on for cases that
+/// start from a fresh database, and `SVH_PEEKNZ=1` switches it on everywhere (exploration, replay).
+pub static PEEK_NZ: std::sync::atomic::AtomicBool = std::sync::atomic::AtomicBool::new(false);
+
+pub fn peek_nz_env() -> bool {
+    std::env::var("SVH_PEEKNZ").is_ok_and(|v| v == "1")
 }
 
 #[derive(Clone, PartialEq, Eq, Debug, Hash)]
@@ -178,6 +191,7 @@ impl fmt::Display for Expr {
             Expr::SelfSym => write!(f, "self.v"),
             Expr::Acc(e) => write!(f, "acc({e})"),
             Expr::PeekZ(n, m, g) => write!(f, "peekz(n{n},n{m},{g})"),
+            Expr::PeekNZ(n, m, g) => write!(f, "peeknz(n{n},n{m},{g})"),
         }
     }
 }
@@ -678,15 +692,17 @@ fn gen_cyclic(rng: &mut Rng, cfg: &GenCfg, c: &CycCfg) -> Prog {
     }
     fn e(rng: &mut Rng, n: usize, ncells: usize, mask: u16, depth: usize, nonmono: bool, kinds: &[Kind]) -> Expr {
         if nonmono_peek(kinds) && rng.chance(1, 7) {
-            return Expr::PeekZ(
-                rng.below(n),
-                rng.below(n),
-                Box::new(Expr::Bin(
-                    Op::And,
-                    Box::new(Expr::In(rng.below(ncells), rng.below(2))),
-                    Box::new(Expr::Const(mask)),
-                )),
-            );
+            let (a, b) = (rng.below(n), rng.below(n));
+            let g = Box::new(Expr::Bin(
+                Op::And,
+                Box::new(Expr::In(rng.below(ncells), rng.below(2))),
+                Box::new(Expr::Const(mask)),
+            ));
+            return if PEEK_NZ.load(std::sync::atomic::Ordering::Relaxed) && rng.chance(1, 2) {
+                Expr::PeekNZ(a, b, g)
+            } else {
+                Expr::PeekZ(a, b, g)
+            };
         }
         if depth == 0 {
             return match rng.below(10) {
